@@ -227,6 +227,12 @@ def run(ctx):
         out.append(('char-insert', s[:j] + bytes([c]) + s[j:]))
         out.append(('truncate', s[:-1]))
         out.append(('bad-char', s[:j] + rng.choice([b'0', b'O', b'I', b'l', b' ', b'_']) + s[j + 1:]))
+        # look-alikes outside the alphabet in place of the character they resemble (`0` / `O` for `o`, `I` / `l` for `1`), after the prefix
+        for ch, subs in ((b'o', (b'0', b'O')), (b'1', (b'I', b'l'))):
+            pos = [i for i in range(len(h), len(s)) if s[i:i + 1] == ch]
+            if pos:
+                i = rng.choice(pos)
+                out.append(('look-alike', s[:i] + rng.choice(subs) + s[i + 1:]))
         out.append(('trailing-space', s + rng.choice([b' ', b'\n', b'\t '])))
         out.append(('space-for-last', s[:-1] + b' '))
         out.append(('leading-one', b'1' + s[:-1]))
@@ -265,8 +271,16 @@ def run(ctx):
                 if real.startswith('ok '):
                     payload = bytes.fromhex(real[3:]) if real[3:] != '-' else b''
                     if not canonical(t, payload):
-                        rawt = base58.b58decode(t)
                         hrow = next(r for r in table if len(t) == r[1] and t.startswith(r[0]))
+                        try:
+                            rawt = base58.b58decode(t)
+                        except ValueError:
+                            rawt = None
+                        if rawt is None:
+                            ctx.violation('decode-accepts-characters-outside-the-alphabet', f'base58_decode({t!r}) = {payload.hex()} although the string is not Base58 '
+                                          f'(a character outside the alphabet; made from the valid {s.decode()} by {kind})',
+                                          {'op': 'decode', 'string': t.decode('latin1'), 'got': payload.hex(), 'row': hrow[0].decode(), 'corruption': kind})
+                            continue
                         if t != t.rstrip():
                             key = 'decode-accepts-trailing-whitespace'
                         elif not rawt.startswith(hrow[2]):
@@ -277,7 +291,7 @@ def run(ctx):
                                       f'{hrow[2].hex()} + {hrow[3]} bytes (row {hrow[0].decode()}): not an encoding of any registered kind',
                                       {'op': 'decode', 'string': t.decode('latin1'), 'got': payload.hex(), 'row': hrow[0].decode(), 'corruption': kind})
                 # predicates on corrupted strings: accept only canonical strings of their kinds
-                if passes_search and (kind.startswith('forged') or kind == 'neighbour-bin' or rng.random() < 0.2):
+                if passes_search and (kind.startswith('forged') or kind in ('neighbour-bin', 'look-alike') or rng.random() < 0.2):
                     k = kind_of(t)
                     for name in preds:
                         if not any(t.startswith(pp) for pp in INTENDED[name]):
